@@ -32,7 +32,7 @@ def make_opt(fedjax, spec):
   lr = float(frac(spec['lr']))
   if spec['kind'] == 'sgd':
     return fedjax.optimizers.sgd(lr)
-  return fedjax.optimizers.sgd(lr, momentum=float(frac(spec['beta'])))
+  return fedjax.optimizers.sgd(lr, momentum=float(frac(spec['beta'])), nesterov=spec['kind'] == 'nes')
 
 
 def client_ids(n):
@@ -167,7 +167,7 @@ def random_instance(rng, fedjax, leaves=2, max_clients=5, rounds=None, dyadic=Tr
   sizes = [rng.choice([0, 1, 2, 3, 4, 5, 6]) for _ in range(n)]
   data = [[[rng.randint(-4, 4) for _ in range(leaves)] for _ in range(s)] for s in sizes]
   bs = rng.choice([1, 2, 4] if dyadic else [1, 2, 3, 4, 5])
-  h = {'bs': bs, 'epochs': rng.choice([1, 1, 2, None]), 'steps': rng.choice([None, 1, 2, 3]), 'drop': rng.random() < .3,
+  h = {'bs': bs, 'epochs': rng.choice([1, 1, 2, None]), 'steps': rng.choice([None, 1, 2, 3, None, 1, 2, 3, 0]), 'drop': rng.random() < .3,
        'seed': rng.randint(0, 1000), 'skip': rng.random() < .2}
   if h['epochs'] is None and h['steps'] is None:
     h['steps'] = 2
@@ -187,8 +187,8 @@ def random_instance(rng, fedjax, leaves=2, max_clients=5, rounds=None, dyadic=Tr
         break
     cohorts.append(co)
   lrs = [1, 0.5, 0.25] if dyadic else [1, 0.5, 0.25, 2]
-  copt = opt_spec('mom', rng.choice(lrs), rng.choice([0.5, 0.25])) if (allow_momentum and rng.random() < .3) else opt_spec('sgd', rng.choice(lrs))
-  sopt = opt_spec('mom', rng.choice(lrs), 0.5) if (allow_momentum and rng.random() < .4) else opt_spec('sgd', rng.choice(lrs))
+  copt = opt_spec(rng.choice(['mom', 'nes']), rng.choice(lrs), rng.choice([0.5, 0.25])) if (allow_momentum and rng.random() < .3) else opt_spec('sgd', rng.choice(lrs))
+  sopt = opt_spec(rng.choice(['mom', 'mom', 'nes']), rng.choice(lrs), 0.5) if (allow_momentum and rng.random() < .4) else opt_spec('sgd', rng.choice(lrs))
   dss = datasets(fedjax, data)
   streams = real_streams(fedjax, dss, hparams(fedjax, h))
   # cap the work so the exact island stays inside 32-bit rationals
@@ -219,6 +219,8 @@ def within_island(inst, bound=1 << 13):
     if opt['kind'] == 'sgd':
       return [chk(pi - lr * gi) for pi, gi in zip(p, g)], s
     t = [chk(gi + beta * si) for gi, si in zip(g, s)]
+    if opt['kind'] == 'nes':
+      return [chk(pi - lr * chk(gi + beta * ti)) for pi, gi, ti in zip(p, g, t)], t
     return [chk(pi - lr * ti) for pi, ti in zip(p, t)], t
 
   mu = frac(inst['mu'])
